@@ -5,7 +5,7 @@ From NSL Require Import Base.Types Base.Syntax Model.PyNum Model.IR Model.VM Mod
      Proofs.ReturnExprExample Harness.FragLib Proofs.LowerStmtProofs Proofs.ElabStmtProofs Proofs.StraightLineProofs Proofs.StraightLineExample
      Proofs.ForwardProofs Harness.FwdLib Harness.FragLib2 Model.Opt Proofs.FlowLowerProofs Proofs.FlowFuncProofs Harness.FlowLib
      Proofs.FlowElabProofs Proofs.FlowTableProofs Proofs.FlowSimProofs Proofs.FlowSimExample Harness.FlowLib2 Proofs.HistoryRefineProofs
-     Proofs.LoopLowerProofs Proofs.LoopElabProofs Proofs.LoopSimProofs Proofs.LoopSimExample Harness.LoopLib.
+     Proofs.LoopLowerProofs Proofs.LoopElabProofs Proofs.LoopSimProofs Proofs.LoopSimExample Proofs.DoSimExample Harness.LoopLib.
 From NSLDyn Require Gen_VM Agree_VM Gen_Shapes.
 Import ListNotations.
 
@@ -219,9 +219,13 @@ Proof. split; vm_compute; reflexivity. Qed.
     with both targets and the jump back are followed by induction on the number of evaluations of the condition; the code
     holds no break / continue placeholders, so the final [patch] is the identity ([nobc], [patch_id]).  Source side
     ([src_while]): an execution of the reference semantics with fuel k evaluates the condition at most k times; the frame of
-    the body stays empty.  [loopsrc_in_fragment] decides the static hypotheses and is evaluated by the check on generated
-    functions.  Missing: for / do loops, break / continue, declarations inside blocks and loop bodies, early returns, calls,
-    aggregates. *)
+    the body stays empty.  DO LOOPS ([wstop] also admits [do body while (c)] at the top level, body a list of assignments,
+    blocks and nested conditionals): lowering side [tres_do] -- start block, body, condition block, the branch emitted with
+    its true target (the start block) and patched with its false target, by induction on the number of executions of the
+    body; source side [src_do] -- the body runs in two pushed frames that stay empty, the condition in one.
+    [loopsrc_in_fragment] decides the static hypotheses and is evaluated by the check on generated
+    functions.  Missing: for loops, break / continue, loops inside loops or conditionals, declarations inside blocks and loop
+    bodies, early returns, calls, aggregates. *)
 Theorem C01_loop_functions_partial :
   forall (M : module) (fn : func) (n : nat) (l : list stmt) (e : expr) (tf : tfunc) (F : ifunc),
     f_body fn = l ++ [SRet (Some e)] -> forallb (wstop n) l = true -> spure e = true ->
@@ -261,6 +265,18 @@ Proof. exact lp_conclusion. Qed.
 Example C01_loop_values :
   loopsrc_in_fragment lp_M lp_fn = true /\
   run 200 {| p_funcs := [lp_F]; p_globals := ["g"%string] |} lp_F 0 (call_frame lp_ws (init_regs lp_F)) lp_vs = Done (VFloat 7.5%float) {| globals := [("g"%string, VInt 0)]; hp := [] |}.
+Proof. split; vm_compute; reflexivity. Qed.
+
+(** non-vacuity of (7) for do loops: int g; f(int n, float b) -> float
+    { float acc = b * 0.5; int i = 0; do { acc += i; if (i < g) { g = g - 1; } i = i + 1; } while (i < n); return acc + g; }
+    at n = 3, b = 1, g = 2: both sides give 4.5 and leave g = 1 *)
+Example C01_do_loop_instance : forall P,
+  exists v vs', fst (match exec_list dl_M 30 (f_body dl_fn) (call_state dl_fn dl_ws dl_g) with ROk p => p | _ => (ONormal, call_state dl_fn dl_ws dl_g) end) = OReturn (SV v) /\
+                exists n, forall fuel', n <= fuel' -> run fuel' P dl_F 0 (call_frame dl_ws (init_regs dl_F)) dl_vs = Done (v_of v) vs'.
+Proof. exact dl_conclusion. Qed.
+Example C01_do_loop_values :
+  loopsrc_in_fragment dl_M dl_fn = true /\
+  run 200 {| p_funcs := [dl_F]; p_globals := ["g"%string] |} dl_F 0 (call_frame dl_ws (init_regs dl_F)) dl_vs = Done (VFloat 4.5%float) {| globals := [("g"%string, VInt 1)]; hp := [] |}.
 Proof. split; vm_compute; reflexivity. Qed.
 
 (** non-vacuity: 7 / 2 and -7 / 2 truncate; mixed arithmetic promotes; % on non-negative operands *)
